@@ -76,6 +76,7 @@ def run(case):
     def halt(me):
         if releasing[0] and me._lid >= 2000:
             world.dispatch_enabled = False
+            after_disable()
         elif releasing[0] and me._lid >= 1000:
             raise Marker()
 
@@ -170,9 +171,10 @@ def run(case):
     def rows():
         return {e: len(world.get_components(ent_py(e))) > 0 for e in known_ids}
 
-    out = []
-    nops = len(case['ops'])
-    for k, o in enumerate(case['ops']):
+    nested = []
+    after_done = [False]       # the operations of case['after'] are performed once
+
+    def exec_op(o, last):
         del log[:]
         ret, exc, done = None, 0, []
         before = rows() if o[0] == 'process' else None
@@ -228,7 +230,7 @@ def run(case):
         oplog = [list(x) for x in log]
         del log[:]
         qs = all_queries()
-        if k < nops - 1 and len(qs) > 6:
+        if not last and len(qs) > 6:
             qs = rng.sample(qs, 6) + focus_queries(o)
         answers = []
         for q in qs:
@@ -238,12 +240,36 @@ def run(case):
                 answers.append(['exists', 0, True])     # entity 0 never exists: rejected
         if log:                                        # a query must not call back
             exc = 2
-        ob = dict(ret=ret, exc=exc, done=done, log=oplog, qs=answers)
-        if o[0] == 'enable' and o[1] and exc == 0 and not world.dispatch_enabled:
+        return dict(ret=ret, exc=exc, done=done, log=oplog, qs=answers)
+
+    def after_disable():
+        # operations the disabling callback performs before it returns: dispatching
+        # is disabled, so each is atomic and is recorded as an operation of its own
+        if after_done[0]:
+            return
+        after_done[0] = True
+        saved = [list(x) for x in log]
+        was = releasing[0]
+        releasing[0] = False
+        try:
+            for a in case.get('after', []):
+                nested.append([a, exec_op(a, False)])
+        finally:
+            releasing[0] = was
+            log[:] = saved
+
+    out = []
+    nops = len(case['ops'])
+    for k, o in enumerate(case['ops']):
+        del nested[:]
+        ob = exec_op(o, k == nops - 1)
+        if o[0] == 'enable' and o[1] and ob['exc'] == 0 and not world.dispatch_enabled:
             # a callback executed  dispatch_enabled = False  during the release: that
-            # nested assignment becomes the next operation of the recorded history
+            # nested assignment (and what the callback did next) become the next
+            # operations of the recorded history
             ob['exc'] = 4
             ob['stopped'] = True
+            ob['nested'] = [list(x) for x in nested]
         out.append(ob)
     return {'obs': out}
 
@@ -310,8 +336,12 @@ def encode(case, trace):
         items = []
         for o, ob in zip(case['ops'], trace['obs']):
             if ob.get('stopped'):
+                im = lambda i: iid(case, i)
+                seq = [[['enable', False], dict(ob, exc=0, log=[], qs=[])]] + ob.get('nested', [])
+                seq[-1][1] = dict(seq[-1][1], qs=seq[-1][1]['qs'] + ob['qs'])
                 items.append('(%s, %s)' % (enc_op(o), enc_obs(dict(ob, qs=[]))))
-                items.append('((SetEnabled false), %s)' % enc_obs(dict(ob, exc=0, log=[])))
+                for a, oa in seq:
+                    items.append('(%s, %s)' % (enc_op(a, im), enc_obs(oa)))
             else:
                 items.append('(%s, %s)' % (enc_op(o, lambda i: iid(case, i)), enc_obs(ob)))
         tr = lst(items)
@@ -474,9 +504,56 @@ def gen_case(rng, nops_max=25, focus=None):
     return case
 
 
+def gen_case_stop(rng):
+    """a release stopped (or interrupted) half-way, more notifications postponed
+    afterwards, then released: the leftovers must come first"""
+    nk = rng.randint(2, 3)
+    kinds = [rng.choice(['ar', 'arp', 'a', 'r']) for _ in range(nk)]
+    ninst = rng.randint(4, 7)
+    cls = [rng.randint(1, nk) for _ in range(ninst)]
+    insts = list(range(1, ninst + 1))
+    rng.shuffle(insts)
+    halter = next((i for i in insts if 'a' in kinds[cls[i - 1] - 1]), None)
+    case = dict(kinds=kinds, cls=cls, ops=[], qseed=rng.randrange(1 << 30))
+    if halter is None:
+        return gen_case(rng)
+    case['disablers' if rng.random() < 0.7 else 'raisers'] = [halter]
+    others = [i for i in insts if i != halter]
+    ents = rng.sample(POOL, 4)
+    ops = [['enable', False]]
+    first = [['create', ents[0], [halter]]] + [['create', ents[1], [others.pop()]]]
+    if rng.random() < 0.5:
+        first.insert(rng.randrange(2), ['create', ents[2], [others.pop()]])
+    ops += first
+    if 'disablers' in case:
+        after = []
+        if others and rng.random() < 0.7:
+            after.append(['create', ents[3], [others.pop()]])
+            ents[3] = None
+        if not after or rng.random() < 0.4:
+            after.append(['delete', ents[1], True])
+        case['after'] = after
+    ops.append(['enable', True])                      # halts at the halter's on_add
+    for _ in range(rng.randint(1, 3)):                # postponed again if it was stopped
+        r = rng.random()
+        if r < 0.4 and others:
+            ops.append(['create', ents[3], [others.pop()]])
+            ents[3] = None
+        elif r < 0.7:
+            ops.append(['delete', ents[1], True])
+        else:
+            ops.append(['remove', ents[0], cls[halter - 1]])
+        if ents[3] is None:
+            break
+    ops.append(['enable', True])
+    ops.append(['enable', True])
+    case['ops'] = [o for o in ops if o[1] is not None or o[0] != 'create']
+    return case
+
+
 def gen(rng, tier):
     n = {'quick': 600, 'thorough': 6000, 'search': 300}[tier]
-    return [gen_case(rng) for _ in range(n)]
+    return [gen_case_stop(rng) if rng.random() < 0.08 else gen_case(rng) for _ in range(n)]
 
 
 def mutate(case, rng):
